@@ -483,5 +483,36 @@ def run(ctx):
             else:
                 R.violation('c', 'R5', inst, 'aggregate_signatures:all-inputs', 'the signatures reach the selection routine only through a map/set '
                             '(locals %s): an unverified signature can evict a valid one before verification' % [body.lname(l) for l in lossy_locals][:4], af.loc())
+        # ... and nothing between `sigs` and the selection drops items by POSITION or ADJACENCY (dedup / take / skip / truncate / ...):
+        # such a step decides before any verification which signature of a signer survives (seed C02-6: `dedup_by_key(signer_index)`
+        # let whatever stood directly before an honest signature replace it).  Value-dependent filters (filter / retain with a
+        # closure) are not judged here: dropping an input that cannot be valid is allowed.
+        BLIND = ('*::dedup', '*::dedup_by', '*::dedup_by_key', '*::take', '*::skip', '*::step_by', '*::truncate', '*::split_off', '*::drain',
+                 '*::pop', '*::swap_remove', '*::remove', '*::clear', '*::split_first', '*::split_last', '*::first', '*::last', '*::nth',
+                 '*::take_while', '*::skip_while', '*::chunks*', '*::windows', '*::resize*', '*::rev')
+        BLIND = tuple(x for x in BLIND if x not in ('*::rev',))
+        fl = flows_forward(body, {2}, True)
+        upstream = set()
+        for c in sel:
+            upstream |= {o[5:] for o in fn_origins(af, c.args[2], True) if o.startswith('call:')}
+        blind = []
+        for c in body.calls():
+            nm = [n for n in c.names() if any(glob_match(p_, n) for p_ in BLIND)]
+            if not nm or not c.args or not sel or c.bb == sel[0].bb:
+                continue
+            a0 = c.args[0]
+            on_input = a0[0] in ('copy', 'move') and (a0[1][0] in fl or any(b_ in fl for b_ in _base_locals(body, a0)))
+            # only steps BEFORE the selection (after it the selected signatures may be handled freely)
+            before = sel[0].bb in body.reach([c.bb])
+            # either the step's result is what the selection receives (adapter), or it mutates a collection of signatures in place
+            in_place = a0[0] in ('copy', 'move') and body.lty(a0[1][0]).startswith('&mut') and 'Signature' in body.lty(a0[1][0])
+            if on_input and before and (any(n in upstream for n in c.names()) or in_place):
+                blind.append('%s (line %s)' % (fn_short(nm[0]), c.line))
+        inst = 'aggregate_signatures: no position- or adjacency-based dropping of input signatures before the selection'
+        if sel and not blind:
+            R.ok('c', 'R5', inst, '', af.loc())
+        elif sel:
+            R.violation('c', 'R5', inst, 'aggregate_signatures:blind-drop', '%s is applied to the received signatures before any of them is verified: which '
+                        'signature of a signer survives is decided by its place in the list' % ', '.join(blind[:3]), af.loc())
         ctx.arg_origin('c', AGG, SELECT, 1, require=['p#3'], forbid=['p#2*'], desc='(msg) <- msg')
         ctx.arg_origin('c', AGG, SELECT, 2, require=['p#2'], desc='(signatures) <- sigs')
